@@ -861,8 +861,12 @@ struct Drv<'a> {
     st: St,
     ctr: u16,
     timeout_s: u64,
+    /// consecutive `err:` answers of t-cupd per slot (a dead client is no longer driven after two)
+    errs: Vec<u32>,
     /// the relay currently loses datagrams
     lossy_now: bool,
+    /// debugging aid: TP_TRACE=1 prints the op/outcome lines of every case to stderr
+    trace: bool,
     /// virtual time by which every session ended so far has certainly timed out on the other side
     slow_until: u64,
 }
@@ -888,7 +892,9 @@ impl<'a> Drv<'a> {
             st: St::default(),
             ctr: 0,
             timeout_s,
+            errs: vec![0; nslots],
             lossy_now: false,
+            trace: std::env::var_os("TP_TRACE").is_some(),
             slow_until: 0,
         };
         for k in 0..n {
@@ -898,7 +904,12 @@ impl<'a> Drv<'a> {
         d
     }
     fn x(&mut self, op: &str) -> String {
-        (self.ex)(op)
+        let o = (self.ex)(op);
+        if self.trace {
+            let cut = |s: &str| if s.len() > 150 { format!("{}..", &s[..150]) } else { s.to_string() };
+            eprintln!("{} => {}", cut(op), cut(&o));
+        }
+        o
     }
     fn new_client(&mut self, k: usize, id: u64) {
         self.x(&format!("t-cnew {} {}", k, id));
@@ -906,6 +917,7 @@ impl<'a> Drv<'a> {
         self.upd[k] = true;
         self.hole[k] = false;
         self.ended[k] = false;
+        self.errs[k] = 0;
     }
     fn events_and_state(&mut self) {
         for _ in 0..64 {
@@ -938,7 +950,7 @@ impl<'a> Drv<'a> {
         hex(&m)
     }
     fn live_slots(&self) -> Vec<usize> {
-        (0..self.nslots).filter(|k| self.upd[*k] && !self.ended[*k] && self.id[*k].is_some()).collect()
+        (0..self.nslots).filter(|k| self.upd[*k] && !self.ended[*k] && self.errs[*k] == 0 && self.id[*k].is_some()).collect()
     }
     fn traffic_client(&mut self, rng: &mut Rng, k: usize, max: u64) {
         if self.ended[k] {
@@ -970,6 +982,9 @@ impl<'a> Drv<'a> {
                 Some(id) => id,
                 None => continue,
             };
+            if !full && (self.ended[k] || self.errs[k] > 0 || !self.st.rc.contains(&id)) {
+                continue;
+            }
             for ch in 0..3 {
                 for who in [format!("c{}", k), format!("s{}", id)] {
                     if who.starts_with('c') && !self.upd[k] {
@@ -977,7 +992,7 @@ impl<'a> Drv<'a> {
                     }
                     if full {
                         self.x(&format!("t-recvall {} {}", who, ch));
-                    } else if rng.chance(1, 3) {
+                    } else if rng.chance(1, 4) {
                         if rng.chance(1, 2) {
                             self.x(&format!("t-recvall {} {}", who, ch));
                         } else {
@@ -997,7 +1012,13 @@ impl<'a> Drv<'a> {
             if !self.upd[k] {
                 continue;
             }
-            self.x(&format!("t-cupd {} {}", k, dt));
+            if self.errs[k] >= 2 {
+                continue;
+            }
+            if self.x(&format!("t-cupd {} {}", k, dt)).starts_with("err:") {
+                self.errs[k] += 1;
+                continue;
+            }
             if traffic > 0 {
                 self.traffic_client(rng, k, traffic);
             }
@@ -1126,6 +1147,7 @@ impl<'a> Drv<'a> {
             }
             Disc::SDiscAll => {
                 self.x("t-sdiscall");
+                self.fwd_lossless(DOWN);
                 for k in 0..self.nslots {
                     if self.id[k].is_some() {
                         self.ended[k] = true;
@@ -1181,7 +1203,8 @@ fn script_lossless(rng: &mut Rng, _tier: Tier, ex: &mut dyn FnMut(&str) -> Strin
     let dt = rng.pick(&[16_000u64, 50_000, 100_000, 250_000, 300_000]);
     // handshake: 4 rounds bring every layer to `connected`
     for _ in 0..rng.range(3, 5) {
-        d.round_lossless(rng, dt, if rng.chance(1, 3) { 1 } else { 0 });
+        let tr = if rng.chance(1, 3) { 1 } else { 0 };
+        d.round_lossless(rng, dt, tr);
     }
     for _ in 0..rng.range(2, 5) {
         d.round_lossless(rng, dt, 2);
@@ -1441,6 +1464,8 @@ struct Sess {
     disc_op: Option<usize>,
     /// first op after which the session MUST end on both sides (judged at `note settled`)
     must_end: Option<usize>,
+    /// `must_end` stems from an explicit disconnect call (not from silence / a black hole)
+    sharp: bool,
     /// the client object is no longer driven (its status is frozen / unobservable)
     silent: bool,
     /// the client object was replaced by `t-cnew`
@@ -1462,16 +1487,141 @@ struct Ctx {
     /// events were drained to `none` since the last t-supd and nothing touched the server since
     drained: bool,
     ghost: bool,
+    holes: HashSet<usize>,
+    /// relay accounting: is the trace, as far as it can be told from the ops, free of loss and delay?
+    ll: Lossless,
+    /// op indices at which a datagram was seen to be lost, delayed or possibly so
+    viol: Vec<usize>,
+    timeout_us: u64,
+    /// virtual clocks
+    stime: u64,
+    ctime: HashMap<usize, u64>,
+    /// per slot: (a t-cupd is waiting for its t-supd, completed client-then-server update pairs)
+    cs: HashMap<usize, (bool, usize)>,
+    /// per slot: (a t-supd is waiting for the slot's t-cupd, completed server-then-client pairs)
+    sc: HashMap<usize, (bool, usize)>,
+    /// per session: (stime, ctime[k], cs pairs, sc pairs) when `must_end` was set
+    snap: HashMap<usize, (u64, u64, usize, usize)>,
+}
+
+/// Per (direction, slot): has everything the sender emitted been forwarded (genuinely, at least
+/// once) before the receiver's next update? Two styles are understood: `t-q` + `t-fwd` per item,
+/// and `t-fwdn`/`t-fwdall` flushes. Anything else counts as a possible loss.
+#[derive(Default)]
+struct Lossless {
+    dirty: [HashMap<usize, bool>; 2],
+    measured: [HashMap<usize, bool>; 2],
+    len: [HashMap<usize, usize>; 2],
+    base: [HashMap<usize, usize>; 2],
+    flushed: [HashMap<usize, bool>; 2],
+    fwd: [HashMap<usize, HashSet<usize>>; 2],
+}
+
+impl Lossless {
+    fn emit(&mut self, dir: usize, k: usize) {
+        self.dirty[dir].insert(k, true);
+        self.measured[dir].insert(k, false);
+    }
+    fn flush(&mut self, dir: usize, k: usize) {
+        self.dirty[dir].insert(k, false);
+        self.flushed[dir].insert(k, true);
+    }
+    /// true if everything emitted towards the consumer of (dir, k) has been forwarded
+    fn settled(&mut self, dir: usize, k: usize) -> bool {
+        if !self.dirty[dir].get(&k).copied().unwrap_or(false) {
+            return true;
+        }
+        if self.flushed[dir].get(&k).copied().unwrap_or(false) || !self.measured[dir].get(&k).copied().unwrap_or(false) {
+            return false;
+        }
+        let len = self.len[dir].get(&k).copied().unwrap_or(0);
+        let base = self.base[dir].get(&k).copied().unwrap_or(0);
+        let f = self.fwd[dir].entry(k).or_default();
+        if (base..len).all(|i| f.contains(&i)) {
+            self.base[dir].insert(k, len);
+            self.dirty[dir].insert(k, false);
+            true
+        } else {
+            false
+        }
+    }
 }
 
 impl Ctx {
+    /// no loss or delay detected at or after op `from`
+    fn lossless_since(&self, from: usize) -> bool {
+        !self.viol.iter().any(|v| *v >= from)
+    }
+    fn relay_step(&mut self, i: usize, t: &[&str], out: &str) {
+        let slots: Vec<usize> = self.slot.keys().copied().collect();
+        match t[0] {
+            "t-cupd" | "t-csend" | "t-ctdisc" if t.len() >= 2 => {
+                if let Ok(k) = t[1].parse::<usize>() {
+                    if t[0] == "t-cupd" && !self.holes.contains(&k) && !self.ll.settled(DOWN, k) {
+                        self.viol.push(i);
+                    }
+                    self.ll.emit(UP, k);
+                }
+            }
+            "t-supd" | "t-ssend" | "t-sdiscall" => {
+                for k in slots {
+                    if t[0] == "t-supd" && !self.holes.contains(&k) && !self.ll.settled(UP, k) {
+                        self.viol.push(i);
+                    }
+                    self.ll.emit(DOWN, k);
+                }
+            }
+            "t-q" => {
+                if let Some(q) = parse_q(out) {
+                    for d in 0..2 {
+                        for (k, n) in q[d].iter().enumerate() {
+                            self.ll.len[d].insert(k, *n);
+                            self.ll.measured[d].insert(k, true);
+                        }
+                    }
+                }
+            }
+            "t-fwd" if t.len() == 4 && out == "ok" => {
+                if let (Some(d), Ok(k), Ok(n)) = (parse_dir(t[1]), t[2].parse::<usize>(), t[3].parse::<usize>()) {
+                    self.ll.fwd[d].entry(k).or_default().insert(n);
+                }
+            }
+            "t-fwdn" if t.len() == 3 && out.starts_with("ok") => {
+                if let (Some(d), Ok(k)) = (parse_dir(t[1]), t[2].parse::<usize>()) {
+                    self.ll.flush(d, k);
+                }
+            }
+            "t-fwdall" if t.len() == 2 && out.starts_with("ok") => {
+                if let Some(d) = parse_dir(t[1]) {
+                    for k in slots {
+                        self.ll.flush(d, k);
+                    }
+                }
+            }
+            "t-mark" => {
+                for d in 0..2 {
+                    for k in slots.iter() {
+                        if !self.holes.contains(k) && !self.ll.settled(d, *k) {
+                            self.viol.push(i);
+                        }
+                        self.ll.flush(d, *k);
+                    }
+                }
+            }
+            _ => {}
+        }
+    }
+    fn slot_blackholed(&self, k: usize) -> bool {
+        self.holes.contains(&k)
+    }
     fn add(&mut self, k: usize, id: u64) {
+        self.holes.remove(&k);
         if let Some(old) = self.slot.get(&k).copied() {
             let s = &mut self.sess[old];
             s.silent = true;
             s.replaced = true;
         }
-        self.sess.push(Sess { k, id, disc_op: None, must_end: None, silent: false, replaced: false });
+        self.sess.push(Sess { k, id, disc_op: None, must_end: None, sharp: false, silent: false, replaced: false });
         self.slot.insert(k, self.sess.len() - 1);
         self.by_id.insert(id, self.sess.len() - 1);
     }
@@ -1484,6 +1634,81 @@ impl Ctx {
     /// bookkeeping common to all oracles; call once per op, before the oracle's own logic
     fn step(&mut self, i: usize, t: &[&str], out: &str) {
         let was_after_supd = self.after_supd;
+        self.relay_step(i, t, out);
+        let had_must: Vec<bool> = self.sess.iter().map(|s| s.must_end.is_some()).collect();
+        match t[0] {
+            "t-new" if t.len() >= 5 => self.timeout_us = t[3].parse::<u64>().unwrap_or(0) * 1_000_000,
+            "t-supd" if t.len() == 2 => {
+                self.stime += t[1].parse::<u64>().unwrap_or(0);
+                let slots: Vec<usize> = self.slot.keys().copied().collect();
+                for k in slots {
+                    self.sc.entry(k).or_insert((false, 0)).0 = true;
+                    let e = self.cs.entry(k).or_insert((false, 0));
+                    if e.0 {
+                        *e = (false, e.1 + 1);
+                    }
+                }
+            }
+            "t-cupd" if t.len() == 3 => {
+                if let Ok(k) = t[1].parse::<usize>() {
+                    *self.ctime.entry(k).or_insert(0) += t[2].parse::<u64>().unwrap_or(0);
+                    self.cs.entry(k).or_insert((false, 0)).0 = true;
+                    let e = self.sc.entry(k).or_insert((false, 0));
+                    if e.0 {
+                        *e = (false, e.1 + 1);
+                    }
+                }
+            }
+            _ => {}
+        }
+        self.step2(i, t, out, was_after_supd);
+        for si in 0..self.sess.len() {
+            if self.sess[si].must_end.is_some() && !had_must.get(si).copied().unwrap_or(false) {
+                let k = self.sess[si].k;
+                self.reset_pairs(k);
+                self.snap.insert(si, (self.stime, self.ctime.get(&k).copied().unwrap_or(0), self.cs[&k].1, self.sc[&k].1));
+            }
+        }
+    }
+    fn reset_pairs(&mut self, k: usize) {
+        self.cs.entry(k).or_insert((false, 0)).0 = false;
+        self.sc.entry(k).or_insert((false, 0)).0 = false;
+    }
+    /// complete update rounds of both sides (in either order) since `must_end` of the session
+    fn rounds(&self, si: usize) -> usize {
+        let s = &self.sess[si];
+        let (_, _, cs0, sc0) = match self.snap.get(&si) {
+            Some(x) => *x,
+            None => return 0,
+        };
+        let cs = self.cs.get(&s.k).map(|x| x.1).unwrap_or(0).saturating_sub(cs0);
+        let sc = self.sc.get(&s.k).map(|x| x.1).unwrap_or(0).saturating_sub(sc0);
+        cs.min(sc)
+    }
+    /// may the session be judged to have ended on the server now? (3 verified lossless rounds, or
+    /// time-out + 1 s of server time)
+    fn server_due(&self, si: usize) -> bool {
+        let (st, _, _, _) = match self.snap.get(&si) {
+            Some(x) => *x,
+            None => return false,
+        };
+        let s = &self.sess[si];
+        let m = s.must_end.unwrap_or(0);
+        (s.sharp && !s.silent && self.lossless_since(m) && !self.holes.contains(&s.k) && self.rounds(si) >= 3) || (self.timeout_us > 0 && self.stime >= st + self.timeout_us + 1_000_000)
+    }
+    fn client_due(&self, si: usize) -> bool {
+        let (_, ct, _, _) = match self.snap.get(&si) {
+            Some(x) => *x,
+            None => return false,
+        };
+        let s = &self.sess[si];
+        let m = s.must_end.unwrap_or(0);
+        if s.silent {
+            return false;
+        }
+        (s.sharp && self.lossless_since(m) && !self.holes.contains(&s.k) && self.rounds(si) >= 3) || (self.timeout_us > 0 && self.ctime.get(&s.k).copied().unwrap_or(0) >= ct + self.timeout_us + 1_000_000)
+    }
+    fn step2(&mut self, i: usize, t: &[&str], out: &str, was_after_supd: bool) {
         match t[0] {
             "t-ev" | "note" | "t-q" => {}
             _ => self.after_supd = false,
@@ -1518,7 +1743,10 @@ impl Ctx {
             "t-cdisc" | "t-ctdisc" if t.len() == 2 && out == "ok" => {
                 if let Some(s) = t[1].parse().ok().and_then(|k: usize| self.slot.get(&k).copied()) {
                     self.sess[s].disc_op.get_or_insert(i);
-                    self.sess[s].must_end.get_or_insert(i);
+                    if self.sess[s].must_end.is_none() {
+                        self.sess[s].must_end = Some(i);
+                        self.sess[s].sharp = true;
+                    }
                 }
             }
             "t-sdisc" if t.len() == 2 => {
@@ -1527,8 +1755,9 @@ impl Ctx {
                     self.sess[s].disc_op.get_or_insert(i);
                     // only a connection the server has can be ended by it
                     let known = self.last_state.as_ref().map(|(_, st)| st.rc.contains(&self.sess[s].id)).unwrap_or(false);
-                    if known {
-                        self.sess[s].must_end.get_or_insert(i);
+                    if known && self.sess[s].must_end.is_none() {
+                        self.sess[s].must_end = Some(i);
+                        self.sess[s].sharp = true;
                     }
                 }
             }
@@ -1541,8 +1770,9 @@ impl Ctx {
                 let nc: Vec<u64> = self.last_state.as_ref().map(|(_, st)| st.nc.clone()).unwrap_or_default();
                 for s in self.sess.iter_mut() {
                     s.disc_op.get_or_insert(i);
-                    if fresh && nc.contains(&s.id) {
-                        s.must_end.get_or_insert(i);
+                    if fresh && nc.contains(&s.id) && s.must_end.is_none() {
+                        s.must_end = Some(i);
+                        s.sharp = true;
                     }
                 }
             }
@@ -1556,6 +1786,8 @@ impl Ctx {
                         self.sess[s].must_end.get_or_insert(i);
                         if t[1] == "silent" {
                             self.sess[s].silent = true;
+                        } else {
+                            self.holes.insert(self.sess[s].k);
                         }
                     }
                 }
@@ -1675,23 +1907,52 @@ fn oracle_propagation(ops: &[String], outs: &[String]) -> Option<OracleFail> {
                 }
             }
         }
+        // verified lossless forwarding: two update rounds carry the news to the other side's
+        // transport layer, the third hands it to the RenetClient (see the glue notes above)
+        if t[0] == "t-state" {
+            if let Some(st) = parse_state(out) {
+                for (si, s) in c.sess.iter().enumerate() {
+                    let m = match s.must_end {
+                        Some(m) if s.sharp && !s.silent && !c.slot_blackholed(s.k) && c.lossless_since(m) => m,
+                        _ => continue,
+                    };
+                    let rounds = c.rounds(si);
+                    if rounds >= 2 && (st.rc.contains(&s.id) || st.nc.contains(&s.id) || st.rd.contains(&s.id)) {
+                        return fail(i, "server-side-not-ended-in-2-rounds", format!("session {} was disconnected at op {} ({}); two lossless rounds later the server still holds it: {}", s.id, m, ops[m], out));
+                    }
+                    if let Some((id, rs, nr)) = st.cl.get(&s.k) {
+                        if *id != s.id {
+                            continue;
+                        }
+                        if rounds >= 2 && nr == "-" && !rs.starts_with("disc") {
+                            return fail(i, "client-transport-not-ended-in-2-rounds", format!("session {} was disconnected at op {} ({}); two lossless rounds later its client transport has no disconnect reason: {}", s.id, m, ops[m], out));
+                        }
+                        if rounds >= 3 && !rs.starts_with("disc") {
+                            return fail(i, "client-not-ended-in-3-rounds", format!("session {} was disconnected at op {} ({}); three lossless rounds later its RenetClient still reports {}", s.id, m, ops[m], rs));
+                        }
+                    }
+                }
+            }
+        }
         if op == "note settled" {
-            let (si, st) = match &c.last_state {
+            let (si_op, st) = match &c.last_state {
                 Some(x) => x.clone(),
                 None => continue,
             };
-            for s in c.sess.iter() {
+            for (si, s) in c.sess.iter().enumerate() {
                 let m = match s.must_end {
-                    Some(m) if m < si => m,
+                    Some(m) if m < si_op => m,
                     _ => continue,
                 };
-                if st.rc.contains(&s.id) || st.nc.contains(&s.id) || st.rd.contains(&s.id) {
-                    return fail(i, "server-side-not-ended", format!("session {} (slot {}) was disconnected at op {} ({}) but the server still holds it: {}", s.id, s.k, m, ops[m], outs[si]));
+                if c.server_due(si) {
+                    if st.rc.contains(&s.id) || st.nc.contains(&s.id) || st.rd.contains(&s.id) {
+                        return fail(i, "server-side-not-ended", format!("session {} (slot {}) was disconnected at op {} ({}) but the server still holds it: {}", s.id, s.k, m, ops[m], outs[si_op]));
+                    }
+                    if balance.get(&s.id).copied().unwrap_or(0) > 0 {
+                        return fail(i, "no-disconnect-event", format!("session {} was disconnected at op {} ({}) and is gone, but no `disconnected` event followed its `connected`", s.id, m, ops[m]));
+                    }
                 }
-                if balance.get(&s.id).copied().unwrap_or(0) > 0 {
-                    return fail(i, "no-disconnect-event", format!("session {} was disconnected at op {} ({}) and is gone, but no `disconnected` event followed its `connected`", s.id, m, ops[m]));
-                }
-                if !s.silent {
+                if c.client_due(si) {
                     if let Some((id, rs, _)) = st.cl.get(&s.k) {
                         if *id == s.id && !rs.starts_with("disc") {
                             return fail(i, "client-side-not-ended", format!("session {} (slot {}) was disconnected at op {} ({}) but its client still reports {}", s.id, s.k, m, ops[m], rs));
@@ -1711,6 +1972,8 @@ fn oracle_channels(ops: &[String], outs: &[String]) -> Option<OracleFail> {
     let mut sub: HashMap<(usize, bool, u8), Vec<(String, bool)>> = HashMap::new();
     let mut got_n: HashMap<(usize, bool, u8), usize> = HashMap::new();
     let mut both_at_heal_start: HashSet<usize> = HashSet::new();
+    let mut heal_start: Option<usize> = None;
+    let mut pairs_at_heal_start: Vec<usize> = vec![];
     let both = |c: &Ctx| -> HashSet<usize> {
         let mut r = HashSet::new();
         if let Some((_, st)) = &c.last_state {
@@ -1787,11 +2050,26 @@ fn oracle_channels(ops: &[String], outs: &[String]) -> Option<OracleFail> {
                     }
                 }
             }
-            "note" if t.len() == 2 && t[1] == "heal-start" => both_at_heal_start = both(&c),
+            "note" if t.len() == 2 && t[1] == "heal-start" => {
+                both_at_heal_start = both(&c);
+                heal_start = Some(i);
+                pairs_at_heal_start = c.sess.iter().map(|s| c.cs.get(&s.k).map(|x| x.1).unwrap_or(0).min(c.sc.get(&s.k).map(|x| x.1).unwrap_or(0))).collect();
+            }
             "note" if t.len() == 2 && t[1] == "healed" => {
                 let now = both(&c);
+                // the heal phase must really be one: verified lossless, at least 3 rounds per session
+                let hs = match heal_start {
+                    Some(h) if c.lossless_since(h + 1) => h,
+                    _ => continue,
+                };
+                let _ = hs;
                 for ((s, to_server, ch), list) in sub.iter() {
                     if *ch == 0 || !now.contains(s) || !both_at_heal_start.contains(s) {
+                        continue;
+                    }
+                    let k = c.sess[*s].k;
+                    let pairs = c.cs.get(&k).map(|x| x.1).unwrap_or(0).min(c.sc.get(&k).map(|x| x.1).unwrap_or(0));
+                    if pairs < pairs_at_heal_start.get(*s).copied().unwrap_or(usize::MAX).saturating_add(3) {
                         continue;
                     }
                     let n = list.iter().filter(|e| e.1).count();
@@ -1819,7 +2097,11 @@ fn oracle_no_spurious_end(ops: &[String], outs: &[String]) -> Option<OracleFail>
         if c.mode.is_empty() {
             continue;
         }
-        let strict = c.mode != "lossy";
+        // the strict claim needs the trace itself to show that nothing was lost or delayed so far
+        let strict = c.mode != "lossy" && c.viol.is_empty();
+        if c.mode != "lossy" && !strict {
+            continue;
+        }
         // (session, client-side?, renet reason, netcode reason)
         let mut seen: Vec<(usize, bool, String, String)> = vec![];
         match t[0] {
@@ -1855,9 +2137,8 @@ fn oracle_no_spurious_end(ops: &[String], outs: &[String]) -> Option<OracleFail>
                 return fail(i, &format!("healthy-session-ended-{}", side), format!("session {} (slot {}) ended on the {} side ({} / {}) although every genuine datagram was forwarded and the script had not disconnected it", se.id, se.k, side, rs, nr));
             }
             let ok = if client_side {
-                (rs == "Transport" || !rs.is_empty() && nr != "-" && rs == "connected")
-                    && matches!(nr.as_str(), "ConnectionTimedOut" | "ConnectionRequestTimedOut" | "ConnectionResponseTimedOut" | "ConnectTokenExpired" | "DisconnectedByServer")
-                    || (nr != "-" && !rs.starts_with("Packet") && matches!(nr.as_str(), "ConnectionTimedOut" | "ConnectionRequestTimedOut" | "ConnectionResponseTimedOut" | "ConnectTokenExpired" | "DisconnectedByServer") && (rs == "connected" || rs == "connecting" || rs == "Transport"))
+                matches!(nr.as_str(), "ConnectionTimedOut" | "ConnectionRequestTimedOut" | "ConnectionResponseTimedOut" | "ConnectTokenExpired" | "DisconnectedByServer")
+                    && matches!(rs.as_str(), "connected" | "connecting" | "Transport")
             } else {
                 rs == "Transport"
             };
